@@ -9,8 +9,9 @@ Correspondence (real `udpcl.agent.Agent`, in-process, no sockets, no D-Bus):
 Monitors (pure Python, own CBOR reader/writer, nothing from the repository): every datagram ≤ MTU;
 data fields by offset tile the bundle, each octet once; exactly one queued copy equal to the
 original once every segment has arrived, nothing queued for a transfer while octets are missing;
-every queued bundle is one that was sent. A send that does not finish is D23
-(`C13:mtu-too-small-nonterminating`); the CPU-time guard keeps the check from hanging.
+every queued bundle is one that was sent; an MTU too small to segment fails (`ValueError`,
+`send_bundle_finished(..., 'failed')`, no datagram). A send that does not finish would be reported
+as `C13:mtu-too-small-nonterminating`; the CPU-time guard keeps the check from hanging.
 '''
 import ipaddress
 import itertools
@@ -24,8 +25,6 @@ import boot
 
 BOUNDS = (24, 256, 65536)
 PEERS = [('10.0.0.2', 4556), ('10.0.0.3', 4556), ('10.0.0.2', 4557)]
-# witness of C13_size_counterexample (Props/C13.lean): id 0, 7 octets, MTU 7
-WITNESS = {'kind': 'send', 'id': 0, 'data': '9f0102030405ff', 'mtu': 7}
 
 
 # ---------------------------------------------------------------- independent CBOR (monitors)
@@ -126,13 +125,61 @@ class Rig(object):
         return self.ua.Agent(cfg, bus_kwargs=dict(conn=None, object_path='/x'))
 
     def send(self, xid, data, mtu, secs):
+        ''' _send_transfer(item) → ('ok', datagrams) | ('failed', exception class) | ('hang', None) '''
         ag = self.agent(mtu)
         item = self.ua.BundleItem(address='10.0.0.1', port=4556, file=BytesIO(data), transfer_id=xid,
                                   total_length=len(data))
         try:
-            return [bytes(s) for s in guarded(lambda: list(ag._send_transfer(item)), secs)]
+            return 'ok', [bytes(s) for s in guarded(lambda: list(ag._send_transfer(item)), secs)]
         except Hang:
-            return None
+            return 'hang', None
+        except Exception as err:   # noqa: the escaped exception class is the observable
+            return 'failed', type(err).__name__
+
+    def process_tx(self, xid, data, mtu, secs):
+        ''' the transfer through _add_tx_item + _process_tx_queue with a recording socket →
+        (datagrams handed to the pacing queue, [(signal, args)] emitted, escaped exception or None) '''
+        ag = self.agent(mtu)
+        sent = []
+
+        class FakeSock(object):
+            def sendmsg(self, bufs, *a, **k):
+                sent.append(b''.join(bufs))
+
+            def sendto(self, buf, *a, **k):
+                sent.append(bytes(buf))
+
+            def setsockopt(self, *a, **k):
+                pass
+
+            def fileno(self):
+                return -1
+
+            def close(self):
+                pass
+
+        orig = self.ua.Conversation.make_local_socket
+        self.ua.Conversation.make_local_socket = lambda _self: FakeSock()
+        try:
+            item = self.ua.BundleItem(address='10.0.0.1', port=4556, file=BytesIO(data), transfer_id=xid)
+            ag._add_tx_item(item)
+            try:
+                guarded(ag._process_tx_queue, secs)
+                esc = None
+            except Hang:
+                return None, None, 'hang'
+            except Exception as err:   # noqa
+                esc = type(err).__name__
+            handed = []
+            for sw in ag._send_wait.values():
+                for ti in list(sw.tx_item_queue) + list(sw.pri_item_queue):
+                    handed += [bytes(d) for d in ti.dgram_iter]
+                sw.stop()
+            sigs = [(name, tuple(args)) for (_p, name, _sig, args) in ag._verif_signals
+                    if name.startswith('send_bundle')]
+            return handed + sent, sigs, esc
+        finally:
+            self.ua.Conversation.make_local_socket = orig
 
     def recv(self, dgrams, reject=False):
         ''' → (outcomes, queue-size snapshots, final queue [{id,addr,port,len,hex}]) '''
@@ -234,48 +281,79 @@ def send_cases(chk):
 
 
 def run_send(chk, rig, cases):
-    budget_hang = 100 if chk.tier == 'thorough' else 25
     reqs, obs = [], []
     for (xid, L, m) in cases:
         data = payload(L, xid % 7)
-        predicted_hang = m is not None and L >= m and L > 0 and m - overhead(xid, L) <= 0
-        if predicted_hang:
-            if budget_hang <= 0:
-                chk.count('send:predicted-nonterminating-not-run')
-                continue
-            budget_hang -= 1
-        segs = rig.send(xid, data, m, 0.15 if predicted_hang else 4.0)
-        if segs is None and not predicted_hang:
-            chk.count('send:unpredicted-guard-retry')
-            segs = rig.send(xid, data, m, 30.0)
+        small = m is not None and L >= m and m - overhead(xid, L) <= 0      # independent arithmetic
+        kind, segs = rig.send(xid, data, m, 4.0)
+        if kind == 'hang':
+            chk.count('send:guard-retry')
+            kind, segs = rig.send(xid, data, m, 30.0)
+        ptx = None
+        if small or (m is not None and L >= m and L // max(1, m - overhead(xid, L)) <= 300) or (m is None or L < m) and L <= 5000:
+            ptx = rig.process_tx(xid, data, m, 8.0)
         reqs.append({'op': 'udpcl.send', 'id': xid, 'data': data.hex(), **({} if m is None else {'mtu': m})})
-        obs.append((xid, data, m, segs))
+        obs.append((xid, data, m, kind, segs, small, ptx))
     answers = chk.driver(reqs) if reqs else []
-    for (xid, data, m, segs), ans in zip(obs, answers):
+    for (xid, data, m, kind, segs, small, ptx), ans in zip(obs, answers):
         rep = {'kind': 'send', 'id': xid, 'data': data.hex() if len(data) <= 64 else None, 'len': len(data),
                'salt': xid % 7, 'mtu': m}
-        small = {'id': xid, 'len': len(data), 'mtu': m}
-        chk.case(small, nontrivial=True, sample=(m is not None and len(data) >= m and len(data) < 300))
+        chk.case({'id': xid, 'len': len(data), 'mtu': m}, nontrivial=True,
+                 sample=(m is not None and len(data) >= m and len(data) < 300))
         chk.cov['traces_validated_against_impl'] += 1
-        hl_t = hl(len(data))
-        chk.count('send:total-head-%d' % hl_t)
-        if segs is None:
+        chk.count('send:total-head-%d' % hl(len(data)))
+        if kind == 'hang':
             chk.count('send:nonterminating')
-            if not ans.get('nonterminating'):
-                chk.corr_break('model finishes where _send_transfer does not', rep)
+            chk.corr_break('_send_transfer does not finish (the model always does)', rep)
             chk.violation('C13:mtu-too-small-nonterminating',
-                          '_send_transfer(id=%d, %d octets) with mtu_default=%s never yields: remain_size=%s <= 0, '
-                          'the segmenting loop does not advance (CPU-time guard fired)'
-                          % (xid, len(data), m, ans.get('remain')), rep)
+                          '_send_transfer(id=%d, %d octets) with mtu_default=%s does not return: remain_size=%s '
+                          '(CPU-time guard fired)' % (xid, len(data), m, ans.get('remain')), rep)
             continue
-        chk.count('send:single' if len(segs) == 1 and (m is None or len(data) < m) else
-                  'send:segments-%s' % ('1' if len(segs) <= 1 else '2-6' if len(segs) <= 6 else '7-99' if len(segs) < 100 else '100+'))
-        if ans.get('nonterminating'):
-            chk.corr_break('model does not finish where _send_transfer does', rep)
-        elif [s.hex() for s in segs] != ans.get('segs'):
-            chk.corr_break('datagram lists differ (impl %d, model %d datagrams)' % (len(segs), len(ans.get('segs', []))), rep)
-        for sig, what in send_monitors(xid, data, m, segs):
-            chk.violation(sig, what, rep)
+        if kind == 'failed':
+            chk.count('send:failed-%s' % segs)
+            if not ans.get('failed'):
+                chk.corr_break('_send_transfer raised %s where the model produces datagrams' % segs, rep)
+            if not small:
+                chk.violation('C13:send-fails-although-mtu-suffices',
+                              '_send_transfer(id=%d, %d octets, mtu_default=%s) raised %s although remain_size > 0 or the bundle fits'
+                              % (xid, len(data), m, segs), rep)
+        else:
+            chk.count('send:single' if len(segs) == 1 and (m is None or len(data) < m) else
+                      'send:segments-%s' % ('0-1' if len(segs) <= 1 else '2-6' if len(segs) <= 6 else '7-99' if len(segs) < 100 else '100+'))
+            if ans.get('failed'):
+                chk.corr_break('model fails where _send_transfer produces %d datagrams' % len(segs), rep)
+            elif [s.hex() for s in segs] != ans.get('segs'):
+                chk.corr_break('datagram lists differ (impl %d, model %d datagrams)' % (len(segs), len(ans.get('segs', []))), rep)
+            for sig, what in send_monitors(xid, data, m, segs):
+                chk.violation(sig, what, rep)
+        if ptx is None:
+            continue
+        # the same transfer through _process_tx_queue: datagrams handed on and signals
+        handed, sigs, esc = ptx
+        chk.count('tx-queue:cases')
+        if esc == 'hang':
+            chk.violation('C13:mtu-too-small-nonterminating', '_process_tx_queue does not return for id=%d, %d octets, mtu_default=%s'
+                          % (xid, len(data), m), rep)
+            continue
+        fin = [list(a) for (n, a) in sigs if n == 'send_bundle_finished']
+        fin = [[str(a[0]), int(a[1]), str(a[2])] for a in fin]
+        want_fin = [ans['finished']] if ans.get('finished') else []
+        if esc is not None or [d.hex() for d in handed] != ans.get('handed') or fin != want_fin:
+            chk.corr_break('_process_tx_queue differs: escaped %s, %d datagrams handed (model %d), finished signals %s (model %s)'
+                           % (esc, len(handed), len(ans.get('handed', [])), fin, want_fin), rep)
+        if small:
+            chk.count('tx-queue:failed-signalled')
+            if handed or fin != [[str(xid), len(data), 'failed']] or esc is not None:
+                chk.violation('C13:mtu-too-small-not-failed',
+                              'MTU %s leaves no room for data (id=%d, %d octets) but _process_tx_queue handed on %d datagrams, '
+                              'signalled %s, escaped %s; expected no datagram and send_bundle_finished(..., "failed")'
+                              % (m, xid, len(data), len(handed), fin, esc), rep)
+        else:
+            if fin or esc is not None:
+                chk.violation('C13:send-fails-although-mtu-suffices',
+                              '_process_tx_queue signalled %s / escaped %s for id=%d, %d octets, mtu_default=%s' % (fin, esc, xid, len(data), m), rep)
+            for sig, what in send_monitors(xid, data, m, handed):
+                chk.violation(sig, what, rep)
 
 
 # ---------------------------------------------------------------- receive side
@@ -417,8 +495,8 @@ def recv_scenarios(chk, rig):
     # (b) the sender's own segments around head boundaries, random orders
     for (L, m) in [(24, 24), (30, 25), (256, 40), (300, 256), (700, 280), (65536, 9000), (65540, 65536), (70000, 1280)][:8 if thorough else 6]:
         data = payload(L, 3)
-        segs = rig.send(9, data, m, 4.0)
-        if not segs or len(segs) < 2:
+        kind, segs = rig.send(9, data, m, 4.0)
+        if kind != 'ok' or len(segs) < 2:
             continue
         parts = [(rd_transfer(s)[2], rd_transfer(s)[3]) for s in segs]
         for _ in range(6 if thorough else 2):
@@ -576,15 +654,6 @@ def run(chk):
         'item.total_length == len(data) as set by _add_tx_item; token-bucket pacing not modelled (datagrams leave in iterator order)',
         'CBOR delimiting of whole-bundle messages (skipItem vs cbor2.load) is tied by this correspondence run only, on arrays/maps/strings/ints/simple values; tags with semantic decoding, floats and invalid UTF-8 are not generated',
     ]
-    # the Lean counterexample witness, replayed on the implementation
-    w = WITNESS
-    segs = rig.send(w['id'], bytes.fromhex(w['data']), w['mtu'], 0.15)
-    if segs is None:
-        chk.violation('C13:mtu-too-small-nonterminating',
-                      'witness of C13_size_counterexample: _send_transfer(id=0, 7 octets) with mtu_default=7 never yields '
-                      '(remain_size = 0)', dict(w))
-    else:
-        chk.corr_break('the Lean counterexample witness terminates on the implementation', dict(w))
     run_send(chk, rig, send_cases(chk))
     run_recv(chk, rig, recv_scenarios(chk, rig), 'reasm')
     run_recv(chk, rig, malformed_scenarios(chk), 'dispatch')
@@ -597,15 +666,19 @@ def replay(chk, path):
     rig = Rig()
     if rep.get('kind') == 'send':
         data = bytes.fromhex(rep['data']) if rep.get('data') else payload(rep['len'], rep.get('salt', 0))
-        segs = rig.send(rep['id'], data, rep['mtu'], 1.0)
-        ans = chk.driver([{'op': 'udpcl.send', 'id': rep['id'], 'data': data.hex(), 'mtu': rep['mtu']}])[0]
+        kind, segs = rig.send(rep['id'], data, rep['mtu'], 2.0)
+        ans = chk.driver([{'op': 'udpcl.send', 'id': rep['id'], 'data': data.hex(), **({} if rep['mtu'] is None else {'mtu': rep['mtu']})}])[0]
         print('input: transfer id %d, %d octets, mtu_default=%s (overhead %d, remain_size %s)' % (
             rep['id'], len(data), rep['mtu'], overhead(rep['id'], len(data)), ans.get('remain')))
-        if segs is None:
-            print('observed: _send_transfer did not yield within 1 s of CPU time (non-terminating loop)')
-            print('expected: datagrams of at most %s octets carrying every octet once, or an error' % rep['mtu'])
-            print('model: %s' % ('nonterminating' if ans.get('nonterminating') else 'terminates'))
+        print('model: %s' % ('failed' if ans.get('failed') else '%d datagrams' % len(ans.get('segs', []))))
+        if kind == 'hang':
+            print('observed: _send_transfer did not return within 2 s of CPU time')
             return 1
+        if kind == 'failed':
+            print('observed: _send_transfer raised %s' % segs)
+            handed, sigs, esc = rig.process_tx(rep['id'], data, rep['mtu'], 2.0)
+            print('observed: _process_tx_queue handed on %s datagrams, signals %s, escaped %s' % (len(handed or []), sigs, esc))
+            return 0 if ans.get('failed') else 1
         print('observed: %d datagrams of sizes %s' % (len(segs), [len(s) for s in segs][:20]))
         viol = send_monitors(rep['id'], data, rep['mtu'], segs)
         for sig, what in viol:
